@@ -4,14 +4,11 @@ sqlite_dissect/carving/carver.py (SignatureCarver.carve_freeblocks / carve_unall
 sqlite_dissect/carving/rollback_journal_carver.py (RollBackJournalCarver.carve), the carving part
 of version_history.py:VersionParserIterator.next and interface.carve_table.
 
-Python typing that the code trips over is mirrored:
-* `record_column_md5_hash_strings` starts as a list of `""` (str); an entry becomes a byte string
-  only when a serial type was read from the data.  `"" += bytes` is a TypeError (`hashIsStr`).
-* `data` is `bytes` when it was read from a file and `bytearray()` when the region is empty
-  (`Page.unallocated_space`, `Freeblock.content`); `append_byte_strings` calls `.encode()` on
-  anything that is not `bytes`, an AttributeError on a bytearray (`isBA`).
-* `decode_varint_in_reverse` may *return* an exception object; unpacking it is a TypeError.
-* `last_offset` of the uncarved-interval bookkeeping may stay `None`; `int >= None` is a TypeError.
+The model follows the tree after the `fix:` commits 6eca1fa (last_offset), 0b2b453 (hash strings are
+bytes), 1323ad4 (freeblock file offset counts from the content), 4d9b308 (append_byte_strings accepts
+bytearray), 1c3b10a (decode_varint_in_reverse raises), 0d6a473 (journal with fewer than two page
+records), 56bb962 (digest over the record's own bytes).  With these the Python type of the data object
+(bytes / bytearray) and of the per-column hash strings no longer decides anything and is not modelled.
 * `get_content_size` of an even serial type is a float with an integral value; every use either
   compares it, adds it or passes it through `int()`, so the model carries the integer.
 md5 is the identity on the hashed bytes (`digest`).
@@ -78,8 +75,6 @@ structure PreCol where
   serialType : Int
   varintLen : Nat
   contentSize : Nat
-  /-- `record_column_md5_hash_strings[index]` is still the str `""` -/
-  hashIsStr : Bool
   truncatedFirst : Bool := false
   probabilisticFirst : Bool := false
   deriving DecidableEq, Repr, Inhabited
@@ -101,8 +96,6 @@ structure CCol where
 structure RecIn where
   loc : Loc
   data : Buf
-  /-- the data object is a `bytearray` (only the empty region) rather than `bytes` -/
-  isBA : Bool
   s : Nat
   e : Nat
   cutoff : Nat
@@ -143,7 +136,7 @@ def fromFreeblockSize (fc : List Int) (fbSize : Int) (sdSize sdcs : Nat) : CM (O
   let x : Int := bodyContentSize - sdcs
   let ms ← matchingTypes x fc
   match ms with
-  | [st] => pure (some { serialType := st, varintLen := 1, contentSize := x.toNat, hashIsStr := true,
+  | [st] => pure (some { serialType := st, varintLen := 1, contentSize := x.toNat,
                          truncatedFirst := true })
   | _ => pure none
 
@@ -153,7 +146,7 @@ def fromPrecedingByte (fc : List Int) (data : Buf) (at_ : Nat) : CM (Option PreC
   if n ≠ 1 then .error .cellCarving
   else if serialTypeSignature st ∈ fc then do
     let sz ← contentSize st
-    pure (some { serialType := st, varintLen := 1, contentSize := sz, hashIsStr := false })
+    pure (some { serialType := st, varintLen := 1, contentSize := sz })
   else pure none
 
 /-- the three `serial_type_definition_start_offset` branches.  `none` for the first column serial
@@ -195,12 +188,11 @@ def reconstructFirst (i : RecIn) (sdSize sdcs : Nat) : CM (Option PreCol) :=
       | some fc =>
         if valid then fromFreeblockSize fc fbSize sdSize sdcs
         else if (-1 : Int) ∈ fc ∨ (-2 : Int) ∈ fc then
-          -- the result of decode_varint_in_reverse is never used; unpacking a returned
-          -- exception object raises TypeError
+          -- the result of decode_varint_in_reverse is never used; `except InvalidVarIntError: pass`
           match decodeVarintRev i.data i.s 5 with
+          | .error .parseError => .ok none
           | .error e => .error (.py e)
-          | .ok .errObject => .error (.py .typeError)
-          | .ok (.value _ _) => .ok none
+          | .ok _ => .ok none
         else fromPrecedingByte fc i.data (i.s - 1)
 
 /-- `max(probs, key=lambda p: p[1])[0]`: the first entry of maximal probability -/
@@ -228,7 +220,7 @@ def probabilisticFirst (sig : CarveSig) (fc : List Int) : CM PreCol := do
   let t3 : Int := if t2 = -2 then 12 else t2
   let t4 : Int := if t3 = -1 then 13 else t3
   let sz ← contentSize t4
-  pure { serialType := t4, varintLen := 1, contentSize := sz, hashIsStr := true,
+  pure { serialType := t4, varintLen := 1, contentSize := sz,
          truncatedFirst := true, probabilisticFirst := true }
 
 /-! ### header walk -/
@@ -245,36 +237,27 @@ def headerWalk (data : Buf) (e nCols : Nat) : Nat → Nat → Nat → CM (List P
       else do
         let sz ← contentSize st
         let rest ← headerWalk data e nCols fuel (cur + len) (n + 1)
-        pure ({ serialType := st, varintLen := len, contentSize := sz, hashIsStr := false } :: rest)
+        pure ({ serialType := st, varintLen := len, contentSize := sz } :: rest)
     else .ok []
 
 /-! ### values -/
 
 /-- `for carved_record_column in self.record_columns:` from body offset `off` -/
-def decodeCols (data : Buf) (isBA : Bool) : List PreCol → Nat → Nat → CM (List CCol)
+def decodeCols (data : Buf) : List PreCol → Nat → Nat → CM (List CCol)
   | [], _, _ => .ok []
   | c :: rest, idx, off =>
-    if off + c.contentSize > data.size then
-      if off < data.size then
-        if c.hashIsStr then .error (.py .typeError)          -- "" += bytes
-        else do
-          let r ← decodeCols data isBA rest (idx + 1) (off + c.contentSize)
-          pure ({ index := idx, serialType := c.serialType, varintLen := c.varintLen, contentSize := c.contentSize,
-                  value := .raw (data.slice off data.size).toList, truncatedValue := true,
-                  truncatedFirst := c.truncatedFirst, probabilisticFirst := c.probabilisticFirst,
-                  bodyOffset := off } :: r)
-      else do
-        let r ← decodeCols data isBA rest (idx + 1) (off + c.contentSize)
-        pure ({ index := idx, serialType := c.serialType, varintLen := c.varintLen, contentSize := c.contentSize,
-                value := .unset, truncatedValue := true,
-                truncatedFirst := c.truncatedFirst, probabilisticFirst := c.probabilisticFirst,
-                bodyOffset := off } :: r)
+    if off + c.contentSize > data.size then do
+      let r ← decodeCols data rest (idx + 1) (off + c.contentSize)
+      pure ({ index := idx, serialType := c.serialType, varintLen := c.varintLen, contentSize := c.contentSize,
+              value := if off < data.size then .raw (data.slice off data.size).toList else .unset,
+              truncatedValue := true,
+              truncatedFirst := c.truncatedFirst, probabilisticFirst := c.probabilisticFirst,
+              bodyOffset := off } :: r)
     else do
       let (sz, v) ← liftPy (getRecordContent c.serialType (data.slice off (off + c.contentSize)) 0)
       if sz ≠ c.contentSize then .error .cellCarving
-      else if isBA then .error (.py .attributeError)          -- append_byte_strings(…, bytearray)
       else do
-        let r ← decodeCols data isBA rest (idx + 1) (off + c.contentSize)
+        let r ← decodeCols data rest (idx + 1) (off + c.contentSize)
         pure ({ index := idx, serialType := c.serialType, varintLen := c.varintLen, contentSize := c.contentSize,
                 value := .dec v, truncatedValue := false,
                 truncatedFirst := c.truncatedFirst, probabilisticFirst := c.probabilisticFirst,
@@ -306,7 +289,7 @@ def carvedRecord (i : RecIn) : CM CarvedRec := do
     let bodyByteSize := sumSizes cols
     let bodyStart := i.e
     let bodyEnd := i.e + bodyByteSize
-    let ccols ← decodeCols i.data i.isBA cols 0 bodyStart
+    let ccols ← decodeCols i.data cols 0 bodyStart
     let headerByteSize : Nat := sdSize + 1
     let hv ← liftPy (encodeVarint headerByteSize)
     let payloadByteSize : Nat := headerByteSize + bodyByteSize
@@ -332,7 +315,8 @@ structure CarvedCell where
   matchEnd : Nat
   cutoff : Nat
   rec_ : CarvedRec
-  /-- `md5(data[start_offset:end_offset])` input (Python slice: a negative start wraps) -/
+  /-- `md5(data[serial_type_definition_start_offset:end_offset])` input: the matched serial types
+  and the bodies as far as the data reaches -/
   digest : List Nat
   deriving Repr, Inhabited
 
@@ -341,7 +325,7 @@ def tryCarve (fileOffset pageNumber index : Nat) (i : RecIn) : Py (Option Carved
   match carvedRecord i with
   | .ok r => .ok (some { fileOffset, pageNumber, loc := i.loc, index, matchStart := i.s, matchEnd := i.e,
                          cutoff := i.cutoff, rec_ := r,
-                         digest := (pySlice i.data r.cellStart r.cellEnd).toList })
+                         digest := (i.data.slice i.s r.cellEnd).toList })
   | .error .cellCarving => .ok none
   | .error (.py .valueError) => .ok none
   | .error (.py e) => .error e
@@ -370,10 +354,10 @@ structure FbIn where
   pageNumber : Nat
   index : Nat
   start : Nat
+  /-- `content_start_offset` = start + 4 -/
+  contentStart : Nat
   byteSize : Nat
   content : Buf
-  /-- `freeblock.content` is `bytearray()` (empty) rather than `bytes` -/
-  isBA : Bool
   pageOffset : Nat
 
 /-- `SignatureCarver.carve_freeblocks` for the freeblocks of pages whose offsets are known -/
@@ -384,8 +368,8 @@ def carveFreeblocks (sig : CarveSig) (pageSize : Nat) (fbs : List FbIn) : Py (Li
     let data := fb.content.toList
     let ms := Regex.finditer pat data
     reverseLoop (fun s e cutoff =>
-      tryCarve (fb.pageOffset + fb.start + s) fb.pageNumber fb.index
-        { loc := .freeblock, data := fb.content, isBA := fb.isBA, s, e, cutoff,
+      tryCarve (fb.pageOffset + fb.contentStart + s) fb.pageNumber fb.index
+        { loc := .freeblock, data := fb.content, s, e, cutoff,
           nCols := sig.numberOfColumns, sig, firstCol := some fc, fbSize := some fb.byteSize, pageSize })
       ms.reverse fb.content.size
   let rec go : List FbIn → Py (List CarvedCell)
@@ -396,14 +380,14 @@ def carveFreeblocks (sig : CarveSig) (pageSize : Nat) (fbs : List FbIn) : Py (Li
       pure (a ++ b)
   go fbs
 
-/-- the uncarved-interval bookkeeping; the lower bound is `none` where the code leaves
-`last_offset = None` -/
+/-- the uncarved-interval bookkeeping; the lower bound is an `Option` because `last_offset` starts
+as `None` (after the fix: commit it is assigned before it is used) -/
 def uncarvedLoop (len n : Nat) : List (Nat × Nat) → Nat → Option Nat → List (Option Nat × Nat)
   | [], _, _ => []
   | (s, e) :: rest, idx, last =>
     if idx = 0 ∧ idx ≠ n - 1 then
       if s ≠ 0 then (some 0, s) :: uncarvedLoop len n rest (idx + 1) (some e)
-      else uncarvedLoop len n rest (idx + 1) last
+      else uncarvedLoop len n rest (idx + 1) (some e)
     else if idx = 0 ∧ idx = n - 1 then
       (some 0, s) :: (if e ≠ len then (some e, len) :: uncarvedLoop len n rest (idx + 1) (some e)
                       else uncarvedLoop len n rest (idx + 1) last)
@@ -449,15 +433,15 @@ def partialOuter (mk : Nat → Nat → Nat → Py (Option CarvedCell)) (ivs : Li
 
 /-- `SignatureCarver.carve_unallocated_space(version, source, page_number, start, data, signature,
 page_offset)` -/
-def carveUnallocated (sig : CarveSig) (pageSize pageNumber pageOffset regionStart : Nat) (data : Buf)
-    (isBA : Bool) : Py (List CarvedCell) := do
+def carveUnallocated (sig : CarveSig) (pageSize pageNumber pageOffset regionStart : Nat) (data : Buf) :
+    Py (List CarvedCell) := do
   let (fc, simplified) ← chosenSignature sig
   let pat ← Regex.genSignature simplified false
   let bytes := data.toList
   let ms := Regex.finditer pat bytes
   let full ← reverseLoop (fun s e cutoff =>
       tryCarve (pageOffset + regionStart + s) pageNumber 0
-        { loc := .unallocated, data, isBA, s, e, cutoff, nCols := sig.numberOfColumns, sig,
+        { loc := .unallocated, data, s, e, cutoff, nCols := sig.numberOfColumns, sig,
           firstCol := none, fbSize := none, pageSize })
       ms.reverse data.size
   let ppat ← Regex.genSignature simplified true
@@ -465,7 +449,7 @@ def carveUnallocated (sig : CarveSig) (pageSize pageNumber pageOffset regionStar
   let ivs := uncarved data.size ms
   let part ← partialOuter (fun s e cutoff =>
       tryCarve (pageOffset + (regionStart + s)) pageNumber 0
-        { loc := .unallocated, data, isBA, s, e, cutoff, nCols := sig.numberOfColumns, sig,
+        { loc := .unallocated, data, s, e, cutoff, nCols := sig.numberOfColumns, sig,
           firstCol := some fc, fbSize := none, pageSize })
       ivs.reverse pms.reverse data.size
   pure (full ++ part)
@@ -473,36 +457,34 @@ def carveUnallocated (sig : CarveSig) (pageSize pageNumber pageOffset regionStar
 /-! ### pages -/
 
 /-- `page.unallocated_space`: `bytearray()` when empty, else `get_page_data` -/
-def regionData (v : VersionIf) (number start len : Nat) : Py (Buf × Bool) :=
-  if len = 0 then .ok (Buf.empty, true)
-  else do
-    let d ← v.getData number start (some len)
-    pure (d, false)
+def regionData (v : VersionIf) (number start len : Nat) : Py Buf :=
+  if len = 0 then .ok Buf.empty
+  else v.getData number start (some len)
 
 /-- freeblocks then unallocated space of one b-tree page (`isinstance(page, BTreePage)`) -/
 def carveBTreePage (sig : CarveSig) (v : VersionIf) (p : BPage) : Py (List CarvedCell) := do
   let fbs ← p.freeblocks.mapM fun f => do
     let len : Int := f.contentLength
     -- `content_length == 0` → bytearray(); a negative length reaches get_page_data
-    let (c, ba) ← (if len = 0 then pure (Buf.empty, true)
-      else if len < 0 then (.error .outsideModel : Py (Buf × Bool))
+    let c ← (if len = 0 then pure Buf.empty
+      else if len < 0 then (.error .outsideModel : Py Buf)
       else regionData v p.number f.contentStart len.toNat)
     let po ← v.pageOffset p.number
-    pure ({ pageNumber := p.number, index := f.index, start := f.start, byteSize := f.byteSize,
-            content := c, isBA := ba, pageOffset := po } : FbIn)
+    pure ({ pageNumber := p.number, index := f.index, start := f.start, contentStart := f.contentStart,
+            byteSize := f.byteSize, content := c, pageOffset := po } : FbIn)
   let a ← carveFreeblocks sig v.pageSize fbs
-  let (d, ba) ← regionData v p.number p.unallocStart (p.unallocEnd - p.unallocStart)
+  let d ← regionData v p.number p.unallocStart (p.unallocEnd - p.unallocStart)
   let po ← v.pageOffset p.number
-  let b ← carveUnallocated sig v.pageSize p.number po p.unallocStart d ba
+  let b ← carveUnallocated sig v.pageSize p.number po p.unallocStart d
   pure (a ++ b)
 
 /-- unallocated space of an overflow page of the tree (the code carves every page object that
 `get_pages_from_b_tree_page` returns) -/
 def carveOverflowPage (sig : CarveSig) (v : VersionIf) (o : OvflPage) : Py (List CarvedCell) := do
   let start := o.contentLength + Generated.OVERFLOW_HEADER_LENGTH
-  let (d, ba) ← regionData v o.number start (v.pageSize - start)
+  let d ← regionData v o.number start (v.pageSize - start)
   let po ← v.pageOffset o.number
-  carveUnallocated sig v.pageSize o.number po start d ba
+  carveUnallocated sig v.pageSize o.number po start d
 
 /-- a page object of `get_pages_from_b_tree_page` -/
 inductive TreePage where
@@ -586,9 +568,9 @@ def carveFreelist (sig : CarveSig) (v : VersionIf) (ver : Version) : Py (List Ca
   let rec go : List (Nat × Nat) → Py (List CarvedCell)
     | [] => .ok []
     | (n, start) :: rest => do
-      let (d, ba) ← regionData v n start (v.pageSize - start)
+      let d ← regionData v n start (v.pageSize - start)
       let po ← v.pageOffset n
-      let a ← carveUnallocated sig v.pageSize n po start d ba
+      let a ← carveUnallocated sig v.pageSize n po start d
       let b ← go rest
       pure (a ++ b)
   go pages
@@ -646,7 +628,7 @@ structure JournalCommit where
 def carveJournalPage (sig : CarveSig) (pageSize pageNumber contentOffset : Nat) (content : Buf) :
     Py (Option JournalCommit) :=
   if content.size ≥ 1 ∧ (content.rd 0 = 0x0d ∨ content.rd 0 = 0x05) then do
-    let cells ← carveUnallocated sig pageSize pageNumber contentOffset 0 content false
+    let cells ← carveUnallocated sig pageSize pageNumber contentOffset 0 content
     pure (some ⟨pageNumber, content.rd 0, dedup [] cells⟩)
   else .ok none
 
@@ -660,7 +642,10 @@ def journalLoop (sig : CarveSig) (pageSize : Nat) (fh : FileH) : Nat → Nat →
     let _ ← fh.read (offset + 4 + pageSize) 4
     let c1 ← carveJournalPage sig pageSize pn (offset + 4) content
     let offset' := offset + recordSize
-    if offset' + recordSize ≥ fh.size then do
+    if offset' + recordSize ≥ fh.size then
+      -- nothing is left when the journal ends exactly at a page record boundary
+      if offset' + 4 ≥ fh.size then pure c1.toList
+      else do
       let pn2 ← (do let b ← fh.read offset' 4; b.u32 0)
       -- file_size - 4 - offset is negative only when the read above already failed
       let content2 ← fh.read (offset' + 4) (fh.size - 4 - offset')
@@ -671,6 +656,8 @@ def journalLoop (sig : CarveSig) (pageSize : Nat) (fh : FileH) : Nat → Nat →
       pure (c1.toList ++ rest)
 
 def carveJournal (sig : CarveSig) (pageSize : Nat) (fh : FileH) : Py (List JournalCommit) :=
-  journalLoop sig pageSize fh (fh.size / (pageSize + 8) + 2) 512
+  -- `has_data` is false from the start unless one whole page record follows the header sector
+  if 512 + (4 + pageSize + 4) ≤ fh.size then journalLoop sig pageSize fh (fh.size / (pageSize + 8) + 2) 512
+  else .ok []
 
 end SqliteDissect.Model.Carve
